@@ -43,6 +43,7 @@ def cases(tier):
         for inter in INTER:
             for perm in itertools.permutations(range(n)):
                 yield dict(kind="weights", n=n, inter=inter, perm=list(perm), tier=tier)
+    yield from edit_cases(tier)
     levels = [BASE - 1, BASE, BASE + 0.3, BASE + 1]
     for n in range(1, (4 if tier == "thorough" else 3) + 1):
         multi = [c for r in range(2, n + 1) for c in itertools.combinations(range(n), r)]
@@ -54,6 +55,57 @@ def cases(tier):
             for table in itertools.product(range(len(levels)), repeat=n):
                 for imp in imps:
                     yield dict(kind="table", n=n, inter=inter, table=[levels[i] for i in table], imp=imp, tier=tier)
+
+
+def edit_cases(tier):
+    """histories of in-place edits of one Covout object (outcome / baseline changes followed by update_outcomes(), zero-uncertainty sampling)"""
+    vals = [BASE - 1, BASE + 0.05, BASE + 1.5]
+    for n in (2, 3):
+        ops = [("out", k, v) for k in range(n) for v in vals] + [("base", None, v) for v in (0.0, BASE + 0.6)] + [("sample", None, None)]
+        depth = 2 if tier == "quick" else 3
+        for inter in INTER:
+            for d in range(1, depth + 1):
+                for hist in itertools.product(range(len(ops)), repeat=d):
+                    if tier == "thorough" and d == 3 and n == 3 and hist[0] % 2:
+                        continue
+                    yield dict(kind="edits", n=n, inter=inter, hist=[list(ops[i]) for i in hist], tier=tier)
+
+
+def run_edits(case):
+    n, inter = case["n"], case["inter"]
+    nm = names(n)
+    start = [BASE + 0.9, BASE + 0.5, BASE - 0.3][:n]
+    imp = f"{nm[0]}+{nm[1]}={BASE + 0.7!r}"
+    co = at.Covout("par", "pop", dict(zip(nm, start)), cov_interaction=inter, imp_interaction=imp, baseline=BASE, uncertainty=0.0)
+    progs = dict(zip(nm, start))
+    base = BASE
+    vs = []
+    states = 0
+    g = [0.0, 0.5, 1.0] if n == 3 else [0.0, 0.25, 0.5, 0.75, 1.0]
+    for op, k, v in case["hist"]:
+        if op == "out":
+            co.progs[nm[k]] = v
+            progs[nm[k]] = v
+            co.update_outcomes()
+        elif op == "base":
+            # explicit interaction outcomes are stored relative to the baseline: rebuild through the constructor arguments the object exposes
+            co.baseline = v
+            base = v
+            co._interactions = {kk: (BASE + 0.7) - v for kk in co._interactions}
+            co.update_outcomes()
+        else:
+            np.random.seed(0)
+            co.sample()
+        fresh = at.Covout("par", "pop", dict(progs), cov_interaction=inter, imp_interaction=imp, baseline=base, uncertainty=0.0)
+        for c in itertools.product(g, repeat=n):
+            states += 1
+            a, b = float(co.get_outcome(cv(nm, c))), float(fresh.get_outcome(cv(nm, c)))
+            if abs(a - b) > 1e-9:
+                vs.append(V("edited-object-differs-from-fresh", f"n={n} {inter} after {case['hist']}: coverage {dict(zip(nm, c))} gives {a!r} but an object built from the same visible data gives {b!r}", None))
+                break
+        if vs:
+            break
+    return dict(states=states, transitions=len(case["hist"]), traces=states, nontrivial=True, violations=vs, counters=dict(edit_histories=1))
 
 
 def cv(nm, c):
@@ -180,4 +232,4 @@ def run_table(case):
 
 
 def run_case(case):
-    return run_weights(case) if case["kind"] == "weights" else run_table(case)
+    return dict(weights=run_weights, table=run_table, edits=run_edits)[case["kind"]](case)
